@@ -79,6 +79,7 @@ impl Timer {
             n
         };
         if need_spawn {
+            rec::with(|r| r.timer_tasks_live += 1);
             let shared = self.shared.clone();
             let _detached = shuttle::thread::Builder::new()
                 .name(format!("timer_{}", timer))
@@ -95,6 +96,12 @@ fn timer_task(shared: Arc<Shared>) {
     rec::with(|r| {
         r.task_names.insert(me, "timer".to_string());
     });
+    timer_loop(shared);
+    rec::with(|r| r.timer_tasks_live -= 1);
+    crate::driver::notify_if_waiting();
+}
+
+fn timer_loop(shared: Arc<Shared>) {
     loop {
         let mut cb: Option<(u64, Callback)> = None;
         {
